@@ -57,6 +57,8 @@ type c19 struct {
 	closeSeen   map[*ssa.Function]bool
 	undSeen     map[string]bool
 	busyTargets bool
+	lateInstr   map[ssa.Instruction]bool // can execute after the readiness signal (set by checkOrder)
+	lateFn      map[*ssa.Function]bool
 	extTargets  bool
 	aliasMemo   map[string]string
 	onceID      string
@@ -102,7 +104,7 @@ func checkC19(c *Ctx) {
 		"(X4) inside each top-level fetcher, by backward value provenance: the CSR handed to the issuer call, the PrivateKey of the SVID built and the key material in the file map of the single dir.Write (map literal, loop over a table, maps.Copy/Clone, also reached through a function value) derive from ONE key-generation call site executed in this fetch, no key material comes from a field or global; the SVID's Certificates and the file map derive from this request's result, and the file map from CurrentTrustAnchors. " +
 		"(X5/X6) time values are evaluated to linear forms over {NotBefore, NotAfter, now} through helpers, parameters and loop phis: every point in time the rotation code compares the clock with or sleeps towards is (1-a)*NotBefore + a*NotAfter of ONE certificate with a <= 1/2 and no positive offset; every clock wait in the rotation code is provably <= 1 minute (constant, min(), guarded clamp, helper result, parameter at all call sites); on every path from the non-nil side of a fetch-error test (followed out of phase helpers through their returns, carrying returned constants/flags/enums into the callers' branches) the first clock wait is exactly 10 s and no fetch comes first; no time.Now/After/Sleep/NewTimer/Tick/Since/Until in the rotation code (injected clock). " +
 		"(X7) every return of GetX509SVID (followed through wrappers, func adapters and helpers forwarding the pair) with a nil error carries an SVID known non-nil there (tested against nil, implied by a flag from the same helper call or by an error variable set exactly on the nil side, or the address of a copy behind a flag-field test); (nil, nil), the SVID returned exactly when nil, or the served field returned untested with no related dominating condition is a VIOLATION, other shapes UNDECIDED. " +
-		"(X8) in every function reachable from Run, no store of the served SVID can follow a close of the readiness channel without a new fetch in between, unless signal and store lie in one write-lock critical section (the SVID of the initial fetch is published before, or atomically with, the readiness signal). (X9) no fetcher / issuer call that can execute after the readiness signal runs with the write lock of the served SVID held (a renewal in flight must not block GetX509SVID). In X4 the CurrentTrustAnchors read that reaches the file map is ordered after the issuer request (read before it on every path = VIOLATION, unordered = UNDECIDED). " +
+		"(X8) in every function reachable from Run, no store of the served SVID can follow a close of the readiness channel without a new fetch in between, unless signal and store lie in one write-lock critical section (the SVID of the initial fetch is published before, or atomically with, the readiness signal). (X9) no fetcher / issuer call that can execute after the readiness signal runs with the write lock of the served SVID held (a renewal in flight must not block GetX509SVID). In X4 the CurrentTrustAnchors read that reaches the file map is ordered after the issuer request (read before it on every path = VIOLATION, unordered = UNDECIDED), and for a map built and written in one function no entry carrying this fetch's key can reach dir.Write on a path that skips every trust-anchor entry. In X5 the path search from the error of a fetch made after readiness also reports a return out of Run (before any wait) that is not behind evidence that a context is done (body of a select case on a Done channel, non-nil side of ctx.Err()): the rotation must not end on a failed renewal. " +
 		"NOT decided: the renewal law over all validity windows and failure sequences (only its constants and wiring), that the certificate used for the renewal point is the leaf of the served SVID, that GetX509SVID waits for readiness at all before reading (only that something does), the private key's cryptographic quality."
 	r.Assumptions = append(r.Assumptions, "type-based lock/channel identity (named type, field)", "crypto GenerateKey functions return a fresh key on every call (crypto/rand)",
 		"unexported functions of crypto/spiffe are only called from the call sites visible in the package", "a helper that is handed a function literal and calls its parameter does so synchronously, before returning",
@@ -132,9 +134,9 @@ func checkC19(c *Ctx) {
 	x.checkX2()
 	x.checkX3()
 	x.checkX4()
+	x.checkOrder()
 	x.checkX5()
 	x.checkX7()
-	x.checkOrder()
 	x.flushUndecided()
 
 	// the file set is published by dir.Write: its crash-consistency rules (shared with C18)
